@@ -173,11 +173,14 @@ class Sem:
             return None
         idx_expr: Optional[ast.AST] = None
         inner_t, inner_it = tg, it
-        if isinstance(it, ast.Call) and call_name(it) == "enumerate" and len(it.args) == 1 and isinstance(tg, ast.Tuple) and len(tg.elts) == 2 \
+        if isinstance(it, ast.Call) and call_name(it) == "enumerate" and len(it.args) in (1, 2) and isinstance(tg, ast.Tuple) and len(tg.elts) == 2 \
                 and isinstance(tg.elts[0], ast.Name):
             if name == tg.elts[0].id:
                 return None
             idx_expr = ast.Name(id=tg.elts[0].id, ctx=ast.Load())
+            start = it.args[1] if len(it.args) == 2 else next((k.value for k in it.keywords if k.arg == "start"), None)
+            if start is not None and not (isinstance(start, ast.Constant) and start.value == 0):
+                idx_expr = ast.BinOp(left=idx_expr, op=ast.Sub(), right=start)
             inner_t, inner_it = tg.elts[1], it.args[0]
         elif isinstance(it, ast.Call) and isinstance(it.func, ast.Attribute) and it.func.attr == "items" and not it.args \
                 and isinstance(tg, ast.Tuple) and len(tg.elts) == 2 and isinstance(tg.elts[0], ast.Name):
@@ -198,7 +201,7 @@ class Sem:
             return None
         # a plain `for v in X` is rewritten to X[i] only when X is visibly a sequence (an element of something, a literal list or
         # a comprehension) or the index is known (enumerate); iterating a bare name/attribute may be a dict → keep the variable
-        seq_like = isinstance(inner_it, (ast.Subscript, ast.List, ast.Tuple, ast.ListComp)) or idx_expr is not None and not idx_expr.id.startswith("IT")
+        seq_like = isinstance(inner_it, (ast.Subscript, ast.List, ast.Tuple, ast.ListComp)) or idx_expr is not None and not (isinstance(idx_expr, ast.Name) and idx_expr.id.startswith("IT"))
         if seqs is None and seq_like and not isinstance(inner_it, ast.Call):
             if isinstance(inner_t, ast.Name) and inner_t.id == name:
                 return elem(inner_it, idx_expr)
@@ -421,6 +424,10 @@ class Sem:
                 return b.elts[sl.value]
             if isinstance(b, (ast.ListComp, ast.GeneratorExp)) and isinstance(sl, ast.Name) and sl.id.startswith("IT"):
                 return self.comp_element(b, at, depth - 1)
+            # A[s:][i - s] → A[i]
+            if isinstance(b, ast.Subscript) and isinstance(b.slice, ast.Slice) and b.slice.lower is not None and b.slice.upper is None and b.slice.step is None \
+                    and isinstance(sl, ast.BinOp) and isinstance(sl.op, ast.Sub) and norm(sl.right) == norm(b.slice.lower):
+                return ast.Subscript(value=b.value, slice=sl.left, ctx=ast.Load())
         return e
 
     def element(self, e: ast.AST, at: int) -> Optional[ast.AST]:
